@@ -46,18 +46,21 @@ class HashTable:
         s : int
             Number of significant digits to keep for the hash table
         '''
-        self.hash_sensitivity = np.power(10, int(s))
+        self.hash_sensitivity = 10.0**int(s)
 
     def _hashingFunction(self, x: np.array, T: np.array):
         '''
-        Gets hash value for a (compostion, temperature) pair
+        Gets key for a (compostion, temperature) pair
 
         Parameters
         ----------
         x : float, list[float]
         T : float
         '''
-        return hash(tuple((np.concatenate((x, [T]))*self.hash_sensitivity).astype(np.int32)))
+        # The key is the tuple of scaled coordinates truncated to whole numbers
+        # These are kept as floats: a cast to a fixed-width integer overflows once T*10^s
+        # reaches 2^31 (np.int32, any s >= 7), which gave every temperature the same key
+        return tuple(np.trunc(np.concatenate((x, [T]))*self.hash_sensitivity).tolist())
 
     def retrieveFromHashTable(self, x: np.array, T: np.array):
         '''
